@@ -8,7 +8,7 @@
 
    reachable cfg g  :=  exists tr, grun fixed cfg (ginit cfg) tr = Some g. *)
 From Coq Require Import List Arith Bool.
-From PV Require Import Model.Pool Proofs.PoolProofs.
+From PV Require Import Model.Pool Proofs.PoolProofs Model.PoolLaunch Proofs.PoolLaunchProofs.
 Import ListNotations.
 
 (* the correspondence run and the theorems are about the same variant of the code *)
@@ -157,6 +157,90 @@ Theorem C05_spec_sound : forall cfg g er,
 Proof. exact spec_outcome_holds. Qed.
 Print Assumptions C05_spec_sound.
 
+(* ---- C05_stopped_at_wait: "all started instances, providers and aggregators stop ... and
+   waiting for the engine's background tasks returns" ------------------------------------- *)
+
+(* At ANY moment of a run (not only at its end): a pool that has released the engine's
+   WaitGroup (onWaitDone) has nothing outstanding -- the results of its provider, its
+   aggregator, its start loop and of all n instances of this run have been received, or the
+   pool never launched anything. *)
+Theorem C05_wait_done_only_when_stopped : forall cfg g p s n,
+  reachable cfg g -> nth_error (pools g) p = Some s -> nth_error cfg p = Some n ->
+  wait_done s = 1 -> outstanding n s = 0.
+Proof. exact wait_done_means_stopped. Qed.
+Print Assumptions C05_wait_done_only_when_stopped.
+
+(* ... and it releases the WaitGroup as soon as the last outstanding result has been received *)
+Theorem C05_wait_done_as_soon_as_stopped : forall cfg g p s n,
+  reachable cfg g -> nth_error (pools g) p = Some s -> nth_error cfg p = Some n ->
+  launched s = true -> outstanding n s = 0 -> wait_done s = 1.
+Proof. exact stopped_means_wait_done. Qed.
+Print Assumptions C05_wait_done_as_soon_as_stopped.
+
+(* Whenever Engine.Wait() can return, nothing any pool launched is outstanding. *)
+Theorem C05_wait_returns_only_when_all_stopped : forall cfg g,
+  reachable cfg g -> wait_returns g = true -> total_outstanding cfg (pools g) = 0.
+Proof. exact wait_returns_means_stopped. Qed.
+Print Assumptions C05_wait_returns_only_when_all_stopped.
+
+(* The function the correspondence run evaluates on the recorded history (what is outstanding
+   at the first moment Engine.Wait can return) is 0 on every history. *)
+Theorem C05_stopped_at_wait_on_every_history : forall cfg tr k,
+  outstanding_at_wait fixed cfg (ginit cfg) tr = Some k -> k = 0.
+Proof. exact outstanding_at_wait_zero. Qed.
+Print Assumptions C05_stopped_at_wait_on_every_history.
+
+(* runAsync opened up (Model/PoolLaunch.v; its statement order is re-read from the source,
+   Gen/RunAsync_bridge.v).  For ANY statement order: the early error return of runAsync -- after
+   which instancePool.Run releases the WaitGroup at once -- leaves nothing running iff nothing is
+   launched before the schedule is built; what it leaves is exactly what was launched before. *)
+Theorem C05_run_async_early_return_clean_iff : forall prog,
+  In RaBuildSchedule prog ->
+  (fst (ra_exec prog false []) = [] <-> launches_before_build prog = []).
+Proof. exact ra_fail_clean_iff. Qed.
+Print Assumptions C05_run_async_early_return_clean_iff.
+
+Theorem C05_run_async_early_return_leaves : forall prog l,
+  In RaBuildSchedule prog -> ra_exec prog false l = (rev (launches_before_build prog) ++ l, false).
+Proof. exact ra_exec_fail. Qed.
+Print Assumptions C05_run_async_early_return_leaves.
+
+(* runAsync of the tree: a failing schedule factory -> nothing launched; success -> provider,
+   aggregator and start loop launched once each *)
+Theorem C05_run_async_fail_launches_nothing : ra_exec run_async_prog false [] = ([], false).
+Proof. exact run_async_fail_launches_nothing. Qed.
+Print Assumptions C05_run_async_fail_launches_nothing.
+
+Theorem C05_run_async_ok_launches_each_once :
+  snd (ra_exec run_async_prog true []) = true /\
+  forall pr, count_pr pr (fst (ra_exec run_async_prog true [])) = 1.
+Proof. exact run_async_ok_launches_each_once. Qed.
+Print Assumptions C05_run_async_ok_launches_each_once.
+
+(* the one-step treatment of warmUpGun + runAsync in Model/Pool.v agrees with the opened-up
+   runAsync: a pool counts as launched exactly when runAsync launched something, and it then
+   made one Provider.Run and one Aggregator.Run call; no other step launches anything *)
+Theorem C05_pre_step_is_run_async : forall v n parent s o s',
+  pstep v n parent s (PvPre o) = Some s' ->
+  launched s = false /\
+  launched s' = negb (is_nil (pre_launched run_async_prog o)) /\
+  comp_runs s' = count_pr PrProv (pre_launched run_async_prog o) + count_pr PrAggr (pre_launched run_async_prog o).
+Proof. exact pre_step_launched. Qed.
+Print Assumptions C05_pre_step_is_run_async.
+
+Theorem C05_only_run_async_launches : forall v n parent s e s',
+  pstep v n parent s e = Some s' -> (forall o, e <> PvPre o) -> launched s' = launched s.
+Proof. exact pstep_launched_stable. Qed.
+Print Assumptions C05_only_run_async_launches.
+
+(* what the statement excludes: a runAsync that launches provider and aggregator before it
+   builds the schedule (same launches on success) returns its error with both running *)
+Theorem C05_launch_before_schedule_refuted :
+  ra_exec launch_first_prog false [] = ([PrAggr; PrProv], false) /\
+  launches launch_first_prog = launches run_async_prog.
+Proof. exact launch_first_leaves_running. Qed.
+Print Assumptions C05_launch_before_schedule_refuted.
+
 (* ---- the tree before the fix commits --------------------------------------------------- *)
 
 (* #4 (fixed by a0becc0): schedule factory error with a shared profile: Wait() never returns *)
@@ -205,3 +289,14 @@ Example C05_example_receptive :
   exists s, pstep fixed 1 false pstate_init (PvPre PreOk) = Some s /\ ph s = PhAwait /\
     msg_allowed 1 false s (ProvRes (EFail CProv)) = true /\ pending (aw s) (ProvRes (EFail CProv)) = true.
 Proof. eexists. split; [reflexivity|]. repeat split. Qed.
+
+(* a run in which Engine.Wait can return only after the last result: before the aggregator's
+   result two pools' worth of bookkeeping shows one outstanding, at the end none *)
+Example C05_example_stopped_at_wait :
+  let tr := [GvPool 0 (PvPre PreOk); GvPool 0 (PvMsg (StartRes 1 ENil) ChSend); GvPool 0 (PvMsg (RunRes 0 ENil) ChSend);
+             GvPool 0 (PvMsg (ProvRes ENil) ChSend)] in
+  (exists g s, grun fixed [1] (ginit [1]) tr = Some g /\ nth_error (pools g) 0 = Some s /\
+     launched s = true /\ wait_done s = 0 /\ outstanding 1 s = 1 /\ wait_returns g = false) /\
+  outstanding_at_wait fixed [1] (ginit [1]) (tr ++ [GvPool 0 (PvMsg (AggrRes ENil) ChSend)]) = Some 0 /\
+  outstanding_at_wait fixed [1] (ginit [1]) [GvPool 0 (PvPre PreSchedFail)] = Some 0.
+Proof. split; [eexists; eexists; split; [vm_compute; reflexivity|repeat split]|split; reflexivity]. Qed.
